@@ -178,7 +178,7 @@ func stageDrift(c Node, out Outcome, unordered bool) string {
 			return fmt.Sprintf("stage %q: no hook event", st)
 		}
 		want := FromTagged(Node{"t": "arr", "e": hst["rows"]})
-		g := FromTagged(got)
+		g := FromTagged(StripMarkers(got))
 		if unordered && (st == "order" || st == "window" || st == "from" || st == "where" || st == "select" || st == "distinct") {
 			gs, _ := g.([]any)
 			if !BagEqual(gs, want.([]any)) && st != "window" {
